@@ -546,6 +546,10 @@ class BaseName:
             # Probably a builtin module, just ignore in that case.
             return ''
 
+        if self._name.start_pos is None:
+            # e.g. module attributes like __file__ that have no position.
+            return ''
+
         index = self._name.start_pos[0] - 1
         start_index = max(index - before, 0)
         return ''.join(lines[start_index:index + after + 1])
